@@ -33,7 +33,7 @@ func raceMain(a []string) {
 	dir := filepath.Join(base, "d")
 	o := kv.DefaultOptions
 	o.DirPath = dir
-	o.DataFileSize = 64 * 1024
+	o.DataFileSize = 16 * 1024
 	o.IndexType = int8(idx)
 	o.FileIOType = byte(iot)
 	o.ShardNum = 4
@@ -89,9 +89,16 @@ func raceMain(a []string) {
 					x := r.Intn(100)
 					switch {
 					case x < 30:
-						record("put", db.Put(k, patBytes(uint64(r.Intn(1000)), r.Intn(3000))))
+						// every value starts with the key it was written for
+						v := append(append([]byte{}, k...), patBytes(uint64(r.Intn(1000)), r.Intn(3000))...)
+						record("put", db.Put(k, v))
 					case x < 50:
-						_, err := db.Get(k)
+						v, err := db.Get(k)
+						if err == nil && (len(v) < len(k) || string(v[:len(k)]) != string(k)) {
+							mu.Lock()
+							errs["get:foreign-value"]++
+							mu.Unlock()
+						}
 						record("get", err)
 					case x < 62:
 						record("del", db.Delete(k))
@@ -132,7 +139,7 @@ func raceMain(a []string) {
 							if r.Intn(3) == 0 {
 								_ = b.Delete(kk)
 							} else {
-								_ = b.Put(kk, patBytes(uint64(r.Intn(1000)), r.Intn(500)))
+								_ = b.Put(kk, append(append([]byte{}, kk...), patBytes(uint64(r.Intn(1000)), r.Intn(500))...))
 							}
 						}
 						record("batch", b.Commit())
@@ -186,7 +193,7 @@ loop:
 		s.db = db
 		live := s.exec("dump")
 		s.exec("close")
-		o2 := strings.Join([]string{"65536", "0", "0", strconv.Itoa(idx), strconv.Itoa(iot), "4"}, " ")
+		o2 := strings.Join([]string{"16384", "0", "0", strconv.Itoa(idx), strconv.Itoa(iot), "4"}, " ")
 		if s.exec("open d "+o2) == "ok" {
 			out["restart_agrees"] = s.exec("dump") == live
 			s.exec("close")
